@@ -110,6 +110,52 @@ def runTrace (rs : Rows α) : List (Op α) → List Bool
   | [] => []
   | op :: ops => (!pre rs op) :: runTrace (next rs op) ops
 
+/-! ### user code that panics on its `k`-th call -/
+
+open Matrix (XOp)
+
+/-- `f` applied to the cells whose row-major position is below `k` (all of them for large `k`) -/
+def mapFirst (k : Nat) (f : α → Nat → Nat → α) (rs : Rows α) : Rows α :=
+  rs.mapIdx fun i r => r.mapIdx fun j x => if i * ncols rs + j < k then f x i j else x
+
+/-- does the operation panic? -/
+def xpanics (rs : Rows α) : XOp α → Bool
+  | .op o => !pre rs o
+  | .mapMutPanic _ k => decide (k < nrows rs * ncols rs)
+  | .mapMutWithIndexPanic _ k => decide (k < nrows rs * ncols rs)
+  | .mapPanic _ k => decide (k < nrows rs * ncols rs)
+  | .mapWithIndexPanic _ k => decide (k < nrows rs * ncols rs)
+  | .insertRowWithPanic row values k =>
+    !(decide (row ≤ nrows rs) && !decide (k < Matrix.nextCalls (ncols rs) values.length) &&
+      decide (ncols rs ≤ values.length))
+  | .insertColumnWithPanic column values k =>
+    !(decide (column ≤ ncols rs) && !decide (k < Matrix.nextCalls (nrows rs) values.length) &&
+      decide (nrows rs ≤ values.length))
+
+/-- the list of rows after the operation: a panic of the in-place maps leaves the cells visited
+    before it mapped; every other panic leaves the rows as they were -/
+def xnext (rs : Rows α) : XOp α → Rows α
+  | .op o => next rs o
+  | .mapMutPanic f k => mapFirst k (fun x _ _ => f x) rs
+  | .mapMutWithIndexPanic f k => mapFirst k f rs
+  | .mapPanic f k => if k < nrows rs * ncols rs then rs else rs.map (·.map f)
+  | .mapWithIndexPanic f k =>
+    if k < nrows rs * ncols rs then rs else rs.mapIdx fun i r => r.mapIdx fun j x => f x i j
+  | .insertRowWithPanic row values k =>
+    if xpanics rs (.insertRowWithPanic row values k) then rs
+    else rs.insertIdx row (values.take (ncols rs))
+  | .insertColumnWithPanic column values k =>
+    if xpanics rs (.insertColumnWithPanic column values k) then rs
+    else List.zipWith (fun r v => r.insertIdx column v) rs values
+
+def xrun (rs : Rows α) : List (XOp α) → Rows α
+  | [] => rs
+  | x :: xs => xrun (xnext rs x) xs
+
+def xrunTrace (rs : Rows α) : List (XOp α) → List Bool
+  | [] => []
+  | x :: xs => xpanics rs x :: xrunTrace (xnext rs x) xs
+
 /-- `scalar()`: the only element of a 1×1 list of rows, a panic otherwise -/
 def scalar (rs : Rows α) : Outcome α :=
   match rs with
@@ -121,6 +167,20 @@ def tryIntoScalar (rs : Rows α) : Option α :=
   match rs with
   | [[x]] => some x
   | _ => none
+
+/-- `row_iter(row)`: the row, a panic when it does not exist -/
+def rowAt (rs : Rows α) (row : Nat) : Outcome (List α) :=
+  match rs[row]? with
+  | some r => .ok r
+  | none => .panic .explicit
+
+/-- `column_iter(column)`: the column top to bottom, a panic when it does not exist -/
+def columnAt (rs : Rows α) (c : Nat) : Outcome (List α) :=
+  if c < ncols rs then .ok (column rs c) else .panic .explicit
+
+/-- `diagonal_iter()`: the cells `(i, i)` -/
+def diagonal (rs : Rows α) : List α :=
+  (List.range (min (nrows rs) (ncols rs))).filterMap fun i => cell rs i i
 
 /-! ### constructors -/
 
